@@ -1,36 +1,246 @@
 /-
-Model of the JSON form of a job instance (src/cascade/low/core.py: JobInstance, TaskInstance,
-TaskDefinition, Task2TaskEdge, DatasetId) as written by `orjson.dumps(job.dict())`
-(gateway/router.py::_spawn_local) and read back by `JobInstance(**orjson.loads(..))`
-(benchmarks/__main__.py::get_job).
+Model of the JSON encodings of the code base (pydantic `model_dump()` / `.dict()` followed by `orjson.dumps`, and
+`orjson.loads` followed by the pydantic constructor):
 
-Only the *shape* is modelled: which attribute goes under which key, how Optional / list / dict /
-tuple fields are represented. The values of `static_input_kw` / `static_input_ps` (type `Any`)
-are JSON trees carried through unchanged; pydantic's coercions and orjson's number formatting are
-NOT modelled (sampled through the real code by the harness). No Mathlib.
+  * a job instance (src/cascade/low/core.py: JobInstance, TaskInstance, TaskDefinition, Task2TaskEdge, DatasetId) as
+    written by `orjson.dumps(job.dict())` (gateway/router.py::_spawn_local) and read back by
+    `JobInstance(**orjson.loads(..))` (benchmarks/__main__.py::get_job);
+  * gateway requests and responses (src/cascade/gateway/api.py) as written by `client.request_response` /
+    `client.serialize_response` (dump + `clazz` key, orjson) and read by `client.parse_request` / the second half of
+    `request_response`.
+
+What is modelled
+  * `J`: JSON documents at TOKEN level -- objects are ordered lists of pairs (orjson writes keys in dict order and
+    `orjson.loads` builds the dict in document order), numbers are either integer tokens or tokens with a fraction /
+    exponent (`orjson.loads` makes a Python int of the former and a float of the latter);
+  * `render`: the exact text orjson writes for a `J` (no blanks, its string escapes, its float format) -- compared BYTE FOR
+    BYTE with what the real code writes on every run (the tie), not used by the theorems;
+  * `PyVal`: the Python values a field of type `Any` (`static_input_kw` / `static_input_ps`) can hold, as far as the
+    encodings distinguish them: JSON-native values, and bytes / tuple / set / frozenset / non-str dict keys / non-finite
+    floats / scalars orjson has a native text form for (datetime, date, time, UUID) / anything else (`opaque`);
+  * `encAny`: what `orjson.dumps` does with such a value (default options): it REFUSES bytes, sets, non-str keys,
+    integers beyond 64 bit and unknown classes (TypeError), writes a tuple as an array, a non-finite float as `null`
+    and a datetime / UUID as a string -- the last three are the silent alterations (known findings), everything else
+    either round-trips or is refused; `decAny`: what `orjson.loads` returns.
+  * the key layout of the dumps (which attribute under which key, Optional / list / dict / tuple fields) and the loaders.
+
+Not modelled: pydantic's lax coercions on input the encoder never produces (e.g. "1" for an int field), strings that are
+not well-formed unicode (Lean strings cannot hold lone surrogates; orjson refuses them -- sampled on the real code), the
+binary-to-decimal conversion of floats (a finite float is the pair sign / shortest decimal digits / exponent the harness
+takes from Python's `repr`, orjson's own digits are compared with it through `render`). No Mathlib.
 -/
 
 namespace EkwVerif.Json
 
-/-- JSON trees. Numbers are kept as decimal mantissa / exponent like `Lean.JsonNumber`. -/
+/-- A finite float: `(-1)^neg * digits * 10^exp`, `digits` the shortest decimal digits that identify the double (no
+trailing zero; `0` with `exp = 0` for ±0.0). -/
+structure Flt where
+  neg : Bool
+  digits : Nat
+  exp : Int
+  deriving DecidableEq, Repr, Inhabited
+
+/-- JSON documents, token level. -/
 inductive J
   | null
   | bool (b : Bool)
-  | num (mantissa : Int) (exponent : Nat)
+  | int (n : Int)
+  | flt (f : Flt)
   | str (s : String)
   | arr (l : List J)
   | obj (kvs : List (String × J))
   deriving Inhabited
 
+inductive NonFin
+  | inf | ninf | nan
+  deriving DecidableEq, Repr
+
+/-- Python values of a field of type `Any`, up to what the JSON encodings can tell apart. -/
+inductive PyVal
+  | none
+  | bool (b : Bool)
+  | int (n : Int)
+  | float (f : Flt)
+  | nonfinite (k : NonFin)
+  | str (s : String)
+  | bytes (b : List Nat)
+  | list (l : List PyVal)
+  | tuple (l : List PyVal)
+  | set (l : List PyVal)
+  | frozenset (l : List PyVal)
+  | dict (kvs : List (PyVal × PyVal))
+  /-- a scalar orjson serialises natively as a string: datetime, date, time, UUID (`text` = isoformat() / str()) -/
+  | native (cls : String) (text : String)
+  /-- any other class (complex, Decimal, Path, user objects): orjson raises TypeError -/
+  | opaque (cls : String)
+  deriving Inhabited
+
+/-- The errors of `orjson.dumps` (all are `TypeError` in Python; told apart by their message). -/
+inductive EncErr
+  | type       -- "Type is not JSON serializable: <class>"
+  | key        -- "Dict key must be str"
+  | intRange   -- "Integer exceeds 64-bit range"
+  deriving DecidableEq, Repr
+
+/-! ### orjson.dumps / orjson.loads on `Any` values -/
+
+def inInt64Range (n : Int) : Bool := decide (-(2 ^ 63 : Int) ≤ n) && decide (n < (2 ^ 64 : Int))
+
+def encInt (n : Int) : Except EncErr J :=
+  if inInt64Range n then .ok (.int n) else .error .intRange
+
+mutual
+/-- `orjson.dumps(v)` (default options), as a document -/
+def encAny : PyVal → Except EncErr J
+  | .none => .ok .null
+  | .bool b => .ok (.bool b)
+  | .int n => encInt n
+  | .float f => .ok (.flt f)
+  | .nonfinite _ => .ok .null              -- silently `null`
+  | .str s => .ok (.str s)
+  | .bytes _ => .error .type
+  | .list l =>
+    match encList l with
+    | .ok js => .ok (.arr js)
+    | .error e => .error e
+  | .tuple l =>                             -- silently an array
+    match encList l with
+    | .ok js => .ok (.arr js)
+    | .error e => .error e
+  | .set _ => .error .type
+  | .frozenset _ => .error .type
+  | .dict kvs =>
+    match encPairs kvs with
+    | .ok o => .ok (.obj o)
+    | .error e => .error e
+  | .native _ text => .ok (.str text)       -- silently a string
+  | .opaque _ => .error .type
+
+def encList : List PyVal → Except EncErr (List J)
+  | [] => .ok []
+  | v :: vs =>
+    match encAny v with
+    | .error e => .error e
+    | .ok j =>
+      match encList vs with
+      | .error e => .error e
+      | .ok js => .ok (j :: js)
+
+/-- the key is looked at before the value -/
+def encPairs : List (PyVal × PyVal) → Except EncErr (List (String × J))
+  | [] => .ok []
+  | (.str k, v) :: rest =>
+    match encAny v with
+    | .error e => .error e
+    | .ok j =>
+      match encPairs rest with
+      | .error e => .error e
+      | .ok o => .ok ((k, j) :: o)
+  | (_, _) :: _ => .error .key
+end
+
+mutual
+/-- `orjson.loads` -/
+def decAny : J → PyVal
+  | .null => .none
+  | .bool b => .bool b
+  | .int n => .int n
+  | .flt f => .float f
+  | .str s => .str s
+  | .arr l => .list (decList l)
+  | .obj kvs => .dict (decPairs kvs)
+
+def decList : List J → List PyVal
+  | [] => []
+  | j :: js => decAny j :: decList js
+
+def decPairs : List (String × J) → List (PyVal × PyVal)
+  | [] => []
+  | (k, j) :: rest => (.str k, decAny j) :: decPairs rest
+end
+
+mutual
+/-- JSON-native: the value domain of the encoding (what the field description "must be json-serializable" means when read
+strictly): None, booleans, integers of 64 bit, finite floats, strings, lists and str-keyed mappings of such. -/
+def Native : PyVal → Bool
+  | .none => true
+  | .bool _ => true
+  | .int n => inInt64Range n
+  | .float _ => true
+  | .str _ => true
+  | .list l => NativeList l
+  | .dict kvs => NativePairs kvs
+  | _ => false
+
+def NativeList : List PyVal → Bool
+  | [] => true
+  | v :: vs => Native v && NativeList vs
+
+def NativePairs : List (PyVal × PyVal) → Bool
+  | [] => true
+  | (.str _, v) :: rest => Native v && NativePairs rest
+  | (_, _) :: _ => false
+end
+
+mutual
+/-- No node of the value belongs to the three classes orjson alters silently (tuple, non-finite float, natively
+serialised scalar). Says nothing about whether the value is accepted. -/
+def Lossless : PyVal → Bool
+  | .nonfinite _ => false
+  | .tuple _ => false
+  | .native _ _ => false
+  | .list l => LosslessList l
+  | .set l => LosslessList l
+  | .frozenset l => LosslessList l
+  | .dict kvs => LosslessPairs kvs
+  | _ => true
+
+def LosslessList : List PyVal → Bool
+  | [] => true
+  | v :: vs => Lossless v && LosslessList vs
+
+def LosslessPairs : List (PyVal × PyVal) → Bool
+  | [] => true
+  | (k, v) :: rest => Lossless k && Lossless v && LosslessPairs rest
+end
+
+mutual
+/-- Some node, met by the encoder before anything else fails, is of a class orjson refuses: bytes, set, frozenset, an
+unknown class, an integer beyond 64 bit, a mapping key that is no string. -/
+def Refused : PyVal → Bool
+  | .int n => !inInt64Range n
+  | .bytes _ => true
+  | .set _ => true
+  | .frozenset _ => true
+  | .opaque _ => true
+  | .list l => RefusedList l
+  | .tuple l => RefusedList l
+  | .dict kvs => RefusedPairs kvs
+  | _ => false
+
+def RefusedList : List PyVal → Bool
+  | [] => false
+  | v :: vs => Refused v || RefusedList vs
+
+def RefusedPairs : List (PyVal × PyVal) → Bool
+  | [] => false
+  | (.str _, v) :: rest => Refused v || RefusedPairs rest
+  | (_, _) :: _ => true
+end
+
+/-! ### job instances -/
+
 structure DatasetId where
   task : String
   output : String
+  deriving DecidableEq, Repr
 
 structure Edge where
   source : DatasetId
   sinkTask : String
   kw : Option String
   ps : Option Int
+  deriving DecidableEq, Repr
 
 structure TaskDef where
   entrypoint : String
@@ -39,11 +249,12 @@ structure TaskDef where
   inputSchema : List (String × String)
   outputSchema : List (String × String)
   needsGpu : Bool
+  deriving DecidableEq, Repr
 
 structure TaskInst where
   defn : TaskDef
-  kw : List (String × J)
-  ps : List (String × J)
+  kw : List (String × PyVal)
+  ps : List (String × PyVal)
 
 structure JobInst where
   tasks : List (String × TaskInst)
@@ -51,21 +262,44 @@ structure JobInst where
   serdes : List (String × (String × String))
   ext : List DatasetId
 
-/-! ### dump -/
+/-! ### domains (the vocabulary of the theorems' hypotheses) -/
+
+def LosslessStatics (kvs : List (String × PyVal)) : Bool := kvs.all (fun p => Lossless p.2)
+def NativeStatics (kvs : List (String × PyVal)) : Bool := kvs.all (fun p => Native p.2)
+def RefusedStatics (kvs : List (String × PyVal)) : Bool := kvs.any (fun p => Refused p.2)
+
+def TaskLossless (t : TaskInst) : Bool := LosslessStatics t.kw && LosslessStatics t.ps
+def TaskNative (t : TaskInst) : Bool := NativeStatics t.kw && NativeStatics t.ps
+
+def EdgeInRange (e : Edge) : Bool :=
+  match e.ps with
+  | none => true
+  | some n => inInt64Range n
+
+/-- no static input of the job belongs to the three classes orjson alters silently -/
+def JobLossless (j : JobInst) : Bool := j.tasks.all (fun p => TaskLossless p.2)
+
+/-- the job is in the domain of the JSON encoding: static inputs JSON-native, positional edge indices within 64 bit -/
+def JobNative (j : JobInst) : Bool := j.tasks.all (fun p => TaskNative p.2) && j.edges.all EdgeInRange
+
+/-! ### dump (`orjson.dumps(job.dict())`) -/
 
 def optStr : Option String → J
   | none => .null
   | some s => .str s
 
-def optInt : Option Int → J
-  | none => .null
-  | some n => .num n 0
+def encOptInt : Option Int → Except EncErr J
+  | none => .ok .null
+  | some n => encInt n
 
 def dumpDs (d : DatasetId) : J := .obj [("task", .str d.task), ("output", .str d.output)]
 
-def dumpEdge (e : Edge) : J :=
-  .obj [("source", dumpDs e.source), ("sink_task", .str e.sinkTask),
-        ("sink_input_kw", optStr e.kw), ("sink_input_ps", optInt e.ps)]
+def dumpEdge (e : Edge) : Except EncErr J :=
+  match encOptInt e.ps with
+  | .error err => .error err
+  | .ok ps =>
+    .ok (.obj [("source", dumpDs e.source), ("sink_task", .str e.sinkTask),
+               ("sink_input_kw", optStr e.kw), ("sink_input_ps", ps)])
 
 def dumpStrMap (m : List (String × String)) : J := .obj (m.map (fun p => (p.1, J.str p.2)))
 
@@ -75,16 +309,62 @@ def dumpDef (d : TaskDef) : J :=
         ("input_schema", dumpStrMap d.inputSchema), ("output_schema", dumpStrMap d.outputSchema),
         ("needs_gpu", .bool d.needsGpu)]
 
-def dumpTask (t : TaskInst) : J :=
-  .obj [("definition", dumpDef t.defn), ("static_input_kw", .obj t.kw), ("static_input_ps", .obj t.ps)]
+/-- a str-keyed mapping of `Any` values (`static_input_kw`, `static_input_ps`) -/
+def encStatics : List (String × PyVal) → Except EncErr (List (String × J))
+  | [] => .ok []
+  | (k, v) :: rest =>
+    match encAny v with
+    | .error e => .error e
+    | .ok j =>
+      match encStatics rest with
+      | .error e => .error e
+      | .ok o => .ok ((k, j) :: o)
 
-def dumpJob (j : JobInst) : J :=
-  .obj [("tasks", .obj (j.tasks.map (fun p => (p.1, dumpTask p.2)))),
-        ("edges", .arr (j.edges.map dumpEdge)),
-        ("serdes", .obj (j.serdes.map (fun p => (p.1, J.arr [.str p.2.1, .str p.2.2])))),
-        ("ext_outputs", .arr (j.ext.map dumpDs))]
+def decStatics : List (String × J) → List (String × PyVal)
+  | [] => []
+  | (k, j) :: rest => (k, decAny j) :: decStatics rest
 
-/-! ### load -/
+def dumpTask (t : TaskInst) : Except EncErr J :=
+  match encStatics t.kw with
+  | .error e => .error e
+  | .ok kw =>
+    match encStatics t.ps with
+    | .error e => .error e
+    | .ok ps => .ok (.obj [("definition", dumpDef t.defn), ("static_input_kw", .obj kw), ("static_input_ps", .obj ps)])
+
+def dumpTasks : List (String × TaskInst) → Except EncErr (List (String × J))
+  | [] => .ok []
+  | (k, t) :: rest =>
+    match dumpTask t with
+    | .error e => .error e
+    | .ok j =>
+      match dumpTasks rest with
+      | .error e => .error e
+      | .ok o => .ok ((k, j) :: o)
+
+def dumpEdges : List Edge → Except EncErr (List J)
+  | [] => .ok []
+  | e :: rest =>
+    match dumpEdge e with
+    | .error err => .error err
+    | .ok j =>
+      match dumpEdges rest with
+      | .error err => .error err
+      | .ok js => .ok (j :: js)
+
+/-- the tasks are written before the edges (field order of the model): the first failing value decides the error -/
+def dumpJob (j : JobInst) : Except EncErr J :=
+  match dumpTasks j.tasks with
+  | .error e => .error e
+  | .ok ts =>
+    match dumpEdges j.edges with
+    | .error e => .error e
+    | .ok es =>
+      .ok (.obj [("tasks", .obj ts), ("edges", .arr es),
+                 ("serdes", .obj (j.serdes.map (fun p => (p.1, J.arr [.str p.2.1, .str p.2.2])))),
+                 ("ext_outputs", .arr (j.ext.map dumpDs))])
+
+/-! ### load (`JobInstance(**orjson.loads(..))`) -/
 
 def field (k : String) : List (String × J) → Option J
   | [] => none
@@ -101,7 +381,11 @@ def asOptStr : J → Option (Option String)
 
 def asOptInt : J → Option (Option Int)
   | .null => some none
-  | .num n 0 => some (some n)
+  | .int n => some (some n)
+  | _ => none
+
+def asInt : J → Option Int
+  | .int n => some n
   | _ => none
 
 def asBool : J → Option Bool
@@ -163,7 +447,7 @@ def loadTask (j : J) : Option TaskInst :=
   | some o =>
     match (field "definition" o).bind loadDef, (field "static_input_kw" o).bind asObj,
           (field "static_input_ps" o).bind asObj with
-    | some d, some kw, some ps => some ⟨d, kw, ps⟩
+    | some d, some kw, some ps => some ⟨d, decStatics kw, decStatics ps⟩
     | _, _, _ => none
 
 def loadPair (j : J) : Option (String × String) :=
@@ -181,5 +465,207 @@ def loadJob (j : J) : Option JobInst :=
           ((field "ext_outputs" o).bind asArr).bind (allM loadDs) with
     | some t, some e, some s, some x => some ⟨t, e, s, x⟩
     | _, _, _, _ => none
+
+/-! ### gateway messages (src/cascade/gateway/api.py, client.py) -/
+
+structure JobSpec where
+  benchmark : Option String
+  envvars : List (String × String)
+  job : Option JobInst
+  workersPerHost : Int
+  hosts : Int
+  useSlurm : Bool
+
+inductive GwReq
+  | submit (spec : JobSpec)
+  | progress (jobIds : List String)
+  | result (jobId : String) (ds : DatasetId)
+  | shutdown
+
+inductive GwRsp
+  | submit (jobId : Option String) (error : Option String)
+  | progress (progresses : List (String × String)) (error : Option String)
+  | result (result : Option String) (error : Option String)
+  | shutdown (error : Option String)
+
+def GwReq.clazz : GwReq → String
+  | .submit _ => "SubmitJobRequest"
+  | .progress _ => "JobProgressRequest"
+  | .result _ _ => "ResultRetrievalRequest"
+  | .shutdown => "ShutdownRequest"
+
+def GwRsp.clazz : GwRsp → String
+  | .submit _ _ => "SubmitJobResponse"
+  | .progress _ _ => "JobProgressResponse"
+  | .result _ _ => "ResultRetrievalResponse"
+  | .shutdown _ => "ShutdownResponse"
+
+def dumpSpec (s : JobSpec) : Except EncErr J :=
+  match (match s.job with
+         | none => (.ok .null : Except EncErr J)
+         | some j => dumpJob j) with
+  | .error e => .error e
+  | .ok ji =>
+    match encInt s.workersPerHost with
+    | .error e => .error e
+    | .ok w =>
+      match encInt s.hosts with
+      | .error e => .error e
+      | .ok h =>
+        .ok (.obj [("benchmark_name", optStr s.benchmark), ("envvars", dumpStrMap s.envvars), ("job_instance", ji),
+                   ("workers_per_host", w), ("hosts", h), ("use_slurm", .bool s.useSlurm)])
+
+/-- `request_response`, first half: `d = m.model_dump(); d["clazz"] = type(m).__name__; orjson.dumps(d)` -- the class
+name goes LAST -/
+def dumpReq : GwReq → Except EncErr J
+  | .submit s =>
+    match dumpSpec s with
+    | .error e => .error e
+    | .ok js => .ok (.obj [("job", js), ("clazz", .str "SubmitJobRequest")])
+  | .progress ids => .ok (.obj [("job_ids", .arr (ids.map J.str)), ("clazz", .str "JobProgressRequest")])
+  | .result job ds => .ok (.obj [("job_id", .str job), ("dataset_id", dumpDs ds), ("clazz", .str "ResultRetrievalRequest")])
+  | .shutdown => .ok (.obj [("clazz", .str "ShutdownRequest")])
+
+/-- `serialize_response` -/
+def dumpRsp : GwRsp → J
+  | .submit j e => .obj [("job_id", optStr j), ("error", optStr e), ("clazz", .str "SubmitJobResponse")]
+  | .progress p e => .obj [("progresses", dumpStrMap p), ("error", optStr e), ("clazz", .str "JobProgressResponse")]
+  | .result r e => .obj [("result", optStr r), ("error", optStr e), ("clazz", .str "ResultRetrievalResponse")]
+  | .shutdown e => .obj [("error", optStr e), ("clazz", .str "ShutdownResponse")]
+
+def loadSpec (j : J) : Option JobSpec :=
+  match asObj j with
+  | none => none
+  | some o =>
+    match (field "benchmark_name" o).bind asOptStr, (field "envvars" o).bind loadStrMap,
+          (field "job_instance" o).bind (fun x => match x with
+            | .null => some none
+            | y => (loadJob y).map some),
+          (field "workers_per_host" o).bind asInt, (field "hosts" o).bind asInt, (field "use_slurm" o).bind asBool with
+    | some b, some env, some ji, some w, some h, some s => some ⟨b, env, ji, w, h, s⟩
+    | _, _, _, _, _, _ => none
+
+/-- `parse_request`: the class is looked up by the `clazz` key, which must name a Request -/
+def loadReq (j : J) : Option GwReq :=
+  match asObj j with
+  | none => none
+  | some o =>
+    match (field "clazz" o).bind asStr with
+    | some "SubmitJobRequest" => ((field "job" o).bind loadSpec).map GwReq.submit
+    | some "JobProgressRequest" => (((field "job_ids" o).bind asArr).bind (allM asStr)).map GwReq.progress
+    | some "ResultRetrievalRequest" =>
+      match (field "job_id" o).bind asStr, (field "dataset_id" o).bind loadDs with
+      | some job, some ds => some (.result job ds)
+      | _, _ => none
+    | some "ShutdownRequest" => some .shutdown
+    | _ => none
+
+/-- `request_response`, second half: the answer must be the Response class that belongs to the request sent -/
+def loadRsp (sent : GwReq) (j : J) : Option GwRsp :=
+  match asObj j with
+  | none => none
+  | some o =>
+    match (field "clazz" o).bind asStr, sent with
+    | some "SubmitJobResponse", .submit _ =>
+      match (field "job_id" o).bind asOptStr, (field "error" o).bind asOptStr with
+      | some a, some e => some (.submit a e)
+      | _, _ => none
+    | some "JobProgressResponse", .progress _ =>
+      match (field "progresses" o).bind loadStrMap, (field "error" o).bind asOptStr with
+      | some a, some e => some (.progress a e)
+      | _, _ => none
+    | some "ResultRetrievalResponse", .result _ _ =>
+      match (field "result" o).bind asOptStr, (field "error" o).bind asOptStr with
+      | some a, some e => some (.result a e)
+      | _, _ => none
+    | some "ShutdownResponse", .shutdown =>
+      match (field "error" o).bind asOptStr with
+      | some e => some (.shutdown e)
+      | none => none
+    | _, _ => none
+
+/-- the response class that answers a request -/
+def GwRsp.answers : GwRsp → GwReq → Bool
+  | .submit _ _, .submit _ => true
+  | .progress _ _, .progress _ => true
+  | .result _ _, .result _ _ => true
+  | .shutdown _, .shutdown => true
+  | _, _ => false
+
+def SpecLossless (s : JobSpec) : Bool :=
+  match s.job with
+  | none => true
+  | some j => JobLossless j
+
+def SpecNative (s : JobSpec) : Bool :=
+  (match s.job with
+   | none => true
+   | some j => JobNative j) && inInt64Range s.workersPerHost && inInt64Range s.hosts
+
+def ReqLossless : GwReq → Bool
+  | .submit s => SpecLossless s
+  | _ => true
+
+/-- the request is in the domain of the JSON encoding -/
+def ReqNative : GwReq → Bool
+  | .submit s => SpecNative s
+  | _ => true
+
+/-! ### the text orjson writes (tie only) -/
+
+def hexDigitL (n : Nat) : Char := "0123456789abcdef".toList.getD n '0'
+
+def escChar (c : Char) : String :=
+  if c = '"' then "\\\""
+  else if c = '\\' then "\\\\"
+  else if c.toNat < 32 then
+    if c.toNat = 8 then "\\b"
+    else if c.toNat = 9 then "\\t"
+    else if c.toNat = 10 then "\\n"
+    else if c.toNat = 12 then "\\f"
+    else if c.toNat = 13 then "\\r"
+    else String.ofList ['\\', 'u', '0', '0', hexDigitL (c.toNat / 16), hexDigitL (c.toNat % 16)]
+  else String.singleton c
+
+def renderStr (s : String) : String := "\"" ++ String.join (s.toList.map escChar) ++ "\""
+
+def zeros (n : Nat) : String := String.ofList (List.replicate n '0')
+
+def expStr (e : Int) : String := if e ≥ 0 then "e+" ++ toString e else "e" ++ toString e
+
+/-- the float format of orjson (ryu's pretty printer): plain notation while the decimal point stays within 16 digits /
+5 leading zeros, scientific otherwise -/
+def renderFlt (f : Flt) : String :=
+  let sign := if f.neg then "-" else ""
+  if f.digits = 0 then sign ++ "0.0" else
+  let s := toString f.digits
+  let len : Int := s.length
+  let k := f.exp
+  let kk := len + k
+  if 0 ≤ k ∧ kk ≤ 16 then sign ++ s ++ zeros k.toNat ++ ".0"
+  else if 0 < kk ∧ kk ≤ 16 then sign ++ String.ofList (s.toList.take kk.toNat) ++ "." ++ String.ofList (s.toList.drop kk.toNat)
+  else if -5 < kk ∧ kk ≤ 0 then sign ++ "0." ++ zeros (-kk).toNat ++ s
+  else if s.length = 1 then sign ++ s ++ expStr (kk - 1)
+  else sign ++ String.ofList (s.toList.take 1) ++ "." ++ String.ofList (s.toList.drop 1) ++ expStr (kk - 1)
+
+mutual
+def render : J → String
+  | .null => "null"
+  | .bool true => "true"
+  | .bool false => "false"
+  | .int n => toString n
+  | .flt f => renderFlt f
+  | .str s => renderStr s
+  | .arr l => "[" ++ ",".intercalate (renderList l) ++ "]"
+  | .obj kvs => "{" ++ ",".intercalate (renderPairs kvs) ++ "}"
+
+def renderList : List J → List String
+  | [] => []
+  | j :: js => render j :: renderList js
+
+def renderPairs : List (String × J) → List String
+  | [] => []
+  | (k, j) :: rest => (renderStr k ++ ":" ++ render j) :: renderPairs rest
+end
 
 end EkwVerif.Json
